@@ -1,6 +1,7 @@
 import QuiverModel.Lemmas.Dict.Spec
 import QuiverModel.Lemmas.Dict.Entries
 import QuiverModel.Lemmas.Dict.Canonical
+import QuiverModel.Lemmas.Dict.BuiltinsTie
 /-
 C19 — the dict module behaves as a finite map.
 
@@ -406,6 +407,63 @@ theorem canonical_shape {d₁ d₂ : Dict K V} (h₁ : Inv hash d₁) (h₂ : In
 
 /-- without collision buckets "the same tree" is plain equality -/
 theorem similar_refl_example : Similar (Dict.leaf 7 1 "a") (Dict.leaf 7 1 "a") := Similar.leaf
+
+/-! ### the shipped instance: keys are binaries or `Str[binary]`, the hash is FNV-1a 32 -/
+
+/-- `Str[b]` and `b` are different keys with the same hash: every byte string yields a full 32-bit
+collision for free (the module hashes `key_bytes`, but compares keys structurally) -/
+theorem twins_collide (b : List UInt8) :
+    keyHash (Key.str b) = keyHash (Key.bin b) ∧ Key.str b ≠ Key.bin b := ⟨rfl, by simp⟩
+
+/-- For the module as shipped (`hash = keyHash`, fuel 8) `put` is total on well-formed dicts, keeps
+the invariant, and is a point update of what `get` returns — with no side condition left. -/
+theorem shipped_put {V : Type} {d : Dict Key V} (h : Inv keyHash d) (k : Key) (v : V) :
+    ∃ d', Api.put keyHash defaultFuel d k v = some d' ∧ Inv keyHash d' ∧
+      ∀ k', Api.get keyHash d' k' = if k' = k then some v else Api.get keyHash d k' := by
+  have hs := put_fuel_suffices keyHash_lt h (fuel := defaultFuel) (by decide) k v
+  obtain ⟨d', hd'⟩ := Option.isSome_iff_exists.mp hs
+  refine ⟨d', hd', put_wf keyHash_lt h hd', ?_⟩
+  intro k'
+  rw [get_spec (put_wf keyHash_lt h hd'), put_spec keyHash_lt h hd', get_spec h]
+
+/-- the same for `remove` -/
+theorem shipped_remove {V : Type} {d : Dict Key V} (h : Inv keyHash d) (k : Key) :
+    Inv keyHash (Api.remove keyHash d k) ∧
+      ∀ k', Api.get keyHash (Api.remove keyHash d k) k' = if k' = k then none else Api.get keyHash d k' := by
+  refine ⟨remove_wf h k, ?_⟩
+  intro k'
+  rw [get_spec (remove_wf h k), remove_spec h, get_spec h]
+
+/-! ### tie to the builtin model of C12 (`QM.Builtins.*`, the model of builtins/integer.rs and
+binary.rs): on the ranges the module uses, the i64 builtins compute what M-Dict computes on `Nat` -/
+
+theorem builtin_fragment_tie {h s : Nat} (hh : h < 2 ^ 63) (hs : s < 2 ^ 63) :
+    ((QM.Builtins.integerSubtract 0 (s : Int)).bind fun ns =>
+      (QM.Builtins.integerShift h ns).bind fun x => QM.Builtins.integerAnd x 31) =
+      .ok ((fragment h s : Nat) : Int) := fragment_tie hh hs
+
+theorem builtin_slotIndex_tie {bitmap bit : Nat} (hb : bitmap < 2 ^ 63) (hbit : bit < 2 ^ 63)
+    (h1 : 1 ≤ bit) :
+    ((QM.Builtins.integerSubtract (bit : Int) 1).bind fun m =>
+      (QM.Builtins.integerAnd bitmap m).bind QM.Builtins.integerPopcount) =
+      .ok ((slotIndex bitmap bit : Nat) : Int) := slotIndex_tie hb hbit h1
+
+theorem builtin_bit_tie {f : Nat} (hf : f < 63) :
+    QM.Builtins.integerShift 1 (f : Int) = .ok ((1 <<< f : Nat) : Int) := integerShift_left_tie hf
+
+theorem builtin_and_tie {a b : Nat} (ha : a < 2 ^ 63) (hb : b < 2 ^ 63) :
+    QM.Builtins.integerAnd a b = .ok ((a &&& b : Nat) : Int) := integerAnd_tie ha hb
+
+theorem builtin_or_tie {a b : Nat} (ha : a < 2 ^ 63) (hb : b < 2 ^ 63) :
+    QM.Builtins.integerOr a b = .ok ((a ||| b : Nat) : Int) := integerOr_tie ha hb
+
+theorem builtin_clear_bit_tie {a b : Nat} (ha : a < 2 ^ 63) (hb : b < 2 ^ 63) :
+    (QM.Builtins.integerNot b).bind (fun nb => QM.Builtins.integerAnd a nb) =
+      .ok ((andNot a b : Nat) : Int) := integerNot_and_tie ha hb
+
+theorem builtin_hash32_tie (v : List UInt8) :
+    QM.Builtins.fnv1a32 QM.Builtins.fnv32Offset QM.Builtins.fnv32Prime v = QM.Dict.fnv1a32 v :=
+  fnv1a32_tie v
 
 /-! ### the hypotheses are satisfiable: concrete colliding key sets
 
